@@ -186,6 +186,11 @@ def _voxel_specs(tier):
 
 
 def cases(tier, seed):
+    return _cases(tier, seed) + [{"id": "translate:ndarray-centres",
+                                  "kind": "alias"}]
+
+
+def _cases(tier, seed):
     out = []
     for name, spec in _shape_specs(tier):
         out.append({"id": "shape:" + name, "kind": "shape", "spec": spec})
@@ -1145,10 +1150,73 @@ def _run_invalid(case, ck):
 
 
 # --------------------------------------------------------------------------
+def _run_alias(case, ck):
+    """(added by the lead) scatterers whose centre is given as a float
+    array: translated() must not move the original, nor earlier results,
+    and repeated translations must not accumulate."""
+    from holopy.scattering.scatterer import (Sphere, Ellipsoid, Union,
+                                             Spheres)
+    g = np.linspace(-3.0, 6.0, 10)
+    P = np.array([(x, y, z) for x in g for y in g for z in g])
+    v = np.array([1.0, -2.0, 3.0])
+    acc = []
+
+    def mk(name, c0):
+        if name == "sphere":
+            return Sphere(n=1.5, r=1.0, center=c0)
+        if name == "layered":
+            return Sphere(n=[1.5, 1.7], r=[0.6, 1.2], center=c0)
+        if name == "ellipsoid":
+            return Ellipsoid(n=1.5, r=(1.0, 2.0, 1.5), center=c0)
+        if name == "union":
+            return Union(Sphere(n=1.5, r=1.0, center=c0),
+                         Sphere(n=1.5, r=0.8, center=np.array(
+                             [1.2, 0.3, 0.0])))
+        with warnings.catch_warnings():
+            warnings.simplefilter("ignore")
+            return Spheres([Sphere(n=1.5, r=1.0, center=c0),
+                            Sphere(n=1.5, r=0.8,
+                                   center=np.array([3.0, 0.0, 0.0]))])
+    for name in ("sphere", "layered", "ellipsoid", "union", "spheres"):
+        c0 = np.array([0.5, 0.25, -0.5])
+        keep = c0.copy()
+        s = mk(name, c0)
+        before = s.contains(P).copy()
+        b_before = [tuple(b) for b in s.bounds] \
+            if name != "spheres" else None
+        t1 = s.translated(v)
+        in1 = t1.contains(P).copy()
+        t2 = s.translated(*v)
+        tt = t1.translated(v)
+        ck.trans += 6
+        ck.true("translate-original-untouched",
+                np.array_equal(s.contains(P), before) and
+                np.array_equal(c0, keep) and
+                (b_before is None or [tuple(b) for b in s.bounds] ==
+                 b_before),
+                "%s with an ndarray centre: translated() moved the original "
+                "(its region, bounds or the caller's array)" % name)
+        ck.true("translate-containment", np.array_equal(
+            t1.contains(P + v), before) and np.array_equal(
+            t2.contains(P + v), before), "%s: translated region is not the "
+            "original region shifted by the vector (repeated call)" % name)
+        ck.true("translate-result-not-aliased",
+                np.array_equal(t1.contains(P), in1),
+                "%s: an earlier translated() result changed after a later "
+                "call" % name)
+        ck.true("translate-containment", np.array_equal(
+            tt.contains(P + 2 * v), before), "%s: chained translation is "
+            "not a shift by twice the vector" % name)
+        acc.append(before.sum())
+    return digest(*acc)
+
+
 def run_case(case):
     ck = Checker()
     kind = case["kind"]
     outcome = "ok"
+    if kind == "alias":
+        return ck.result(fp=_run_alias(case, ck))
     if kind == "shape":
         fp = _run_shape(case, ck)
     elif kind == "csg":
